@@ -93,7 +93,7 @@ func (it Item) text() string {
 	return ""
 }
 
-var syntaxFaults = []string{"foo(.\n", "p1(1) p1(2).\n", ") .\n", "'unterminated\n", "p1(1\n", "\"open string\n", "/* open comment\n", "X = [-\n", "foo :- .\n", "p1(1)).\n", "0'\n"}
+var syntaxFaults = []string{"foo(.\n", "p1(1) p1(2).\n", ") .\n", "'unterminated\n", "p1(1\n", "\"open string\n", "/* open comment\n", "/* open * comment\n", "/*\n * boxed\n * comment\n", "/* nearly closed *", "/**", "% line comment, then /* open\n/* x", "X = [-\n", "foo :- .\n", "p1(1)).\n", "0'\n"}
 var nonCallable = []string{"1.\n", "foo :- 1.\n", "foo :- bar, 2.\n", "3 :- true.\n", "1.5.\n"}
 var badDirectives = []string{":- fail.\n", ":- throw(oops).\n", ":- undefined_directive_zz.\n", ":- X is foo + 1.\n"}
 
